@@ -13,7 +13,13 @@ def main():
     scratch = tempfile.mkdtemp(prefix='jpv-mut-')
     ok = True
     try:
-        for m in MUTANTS:
+        start = int(os.environ.get('MUT_START', '0'))
+        stride = int(os.environ.get('MUT_STRIDE', '1'))
+        offset = int(os.environ.get('MUT_OFFSET', '0'))
+        for idx, m in enumerate(MUTANTS):
+            # MUT_START / MUT_STRIDE / MUT_OFFSET: run a slice of the list (several processes side by side)
+            if idx < start or (idx - start) % stride != offset or idx >= int(os.environ.get('MUT_END', '1000000')):
+                continue
             if sel and not any(s in m['name'] or s == m['prop'] for s in sel):
                 continue
             d = os.path.join(scratch, 'repo')
